@@ -23,6 +23,7 @@ def letter_maps(numpy):
         'tiny': [1.0, 1.0 + eps, 1.0 + 2 * eps, 1.0 + 3 * eps, 1.0 + 4 * eps, 1.0 + 5 * eps],
         'large': [1e15, 1e15 + 1, 1e15 + 2, 1e15 + 3, 1e15 + 4, 1e15 + 5],
         'counts': [0, 1, 2, 3, 5, 8],
+        'negint': [-7, -4, -3, -1, 0, 2],        # whole numbers around zero: half-integer queries are negative
     }
 
 
@@ -33,11 +34,11 @@ def query_value(vals, q, kind):
         return vals[q // 2 - 1]
     i = q // 2          # between letter i and i+1 (1-based); i = 0 below all, i = A above all
     if i == 0:
-        return vals[0] - 1 if kind in ('int', 'counts') else (math.nextafter(vals[0], -math.inf))
+        return vals[0] - 1 if kind in ('int', 'counts', 'negint') else (math.nextafter(vals[0], -math.inf))
     if i == len(vals):
-        return vals[-1] + 1 if kind in ('int', 'counts') else (math.nextafter(vals[-1], math.inf))
+        return vals[-1] + 1 if kind in ('int', 'counts', 'negint') else (math.nextafter(vals[-1], math.inf))
     lo, hi = vals[i - 1], vals[i]
-    if kind in ('int', 'counts'):
+    if kind in ('int', 'counts', 'negint'):
         return lo + 0.5 if hi - lo >= 1 else None
     mid = lo + (hi - lo) / 2
     if lo < mid < hi:
@@ -77,9 +78,11 @@ def run(chk, replay=None):
             x = list(sample)
         elif container == 'nparray':
             x = numpy.array(sample)
-        elif container == 'npint' and kind in ('int', 'counts'):
+        elif container == 'npint' and kind in ('int', 'counts', 'negint'):
             x = numpy.array(sample, dtype=numpy.int64)
-        elif container in DTYPES and kind in ('int', 'counts'):
+        elif container in DTYPES and kind == 'negint' and 'uint' in container:
+            x = numpy.array(sample, dtype=numpy.int64)        # (negative values: signed storage)
+        elif container in DTYPES and kind in ('int', 'counts', 'negint'):
             # event counts arrive in whatever integer / float dtype the caller's arrays have
             x = numpy.array(sample, dtype=DTYPES[container])
         else:
@@ -133,6 +136,8 @@ def run(chk, replay=None):
     containers = ['list', 'nparray', 'npint', 'npuint8', 'npfloat32', 'npuint64', 'npint32', 'npint8', 'npuint16']
     if 'counts' not in kinds:
         kinds = kinds + ['counts']
+    if 'negint' not in kinds:
+        kinds = kinds + ['negint']
     nb = 0
     for ci, case in enumerate(cases):
         cnt, n, ge, le = case['cnt'], case['n'], case['ge'], case['le']
